@@ -130,8 +130,11 @@ fn record(args: &Args) {
     let mut tr = TraceOut::create(args.out.as_deref().unwrap_or(""));
     let mut res = Results::create(args.res.as_deref().unwrap_or(""));
     let (rounds, max_len, big) = if args.thorough { (300, 400, 12) } else { (60, 150, 2) };
-    for round in 0..rounds + big {
-        let els = if round < rounds { gen_elevations(&mut rng, max_len) } else { gen_elevations(&mut rng, 2000) };
+    for round in 0..rounds + big + 2 {
+        // the last two inputs are runs far longer than a real sweep (a sweep has at most 720 radials): 1,500 radials of one
+        // elevation, and 800 + 900 of two
+        let els = if round < rounds { gen_elevations(&mut rng, max_len) } else if round < rounds + big { gen_elevations(&mut rng, 2000) }
+                  else if round == rounds + big { vec![7u64; 1500] } else { let mut v = vec![3u64; 800]; v.extend(vec![4u64; 900]); v };
         res.case(fnv(format!("{:?}", els).as_bytes()), els.len() >= 2);
         tr.ev(json!({"ev": "input", "els": els}));
         match from_radials(&els) {
